@@ -42,7 +42,7 @@ def s1_loop_table(ctx):
         got = {k: names.count(k) for k in exp}
         key = tuple(sorted((k, x) for k, x in v.items() if k != 'print_events'))
         by_print.setdefault(key, set()).add(tuple(seq))
-        if outcome != 'fall':
+        if outcome not in ('fall', 'continue'):
             bad += 1
             ctx.violation('C14.S1', 'every event is processed to the end of the loop body', fn.site(), '%s: body ends with %s' % (v, outcome), key='C14.S1|outcome')
             continue
